@@ -241,6 +241,9 @@ class BlockBlueprint(yamlize.KeyedList):
         b.setBuLimitInfo()
         b = self._mergeComponents(b)
         b.verifyBlockDims()
+        for c in b.iterComponents():
+            # overlapping components leave a (non-void) component with a negative cold area
+            c.getArea(cold=True)
         b.spatialGrid = spatialGrid
 
         return b
